@@ -107,6 +107,16 @@ template <class C> struct Runner {
     void run_src(const Str &st, int only_base = -1, int only_mode = -1, int only_mgr = -1) {
         src_mem.arena.reset(); RoUri<C> S = make_ro<C>(src_mem, st); if (!S.ok) { ctx->harness_error("source does not parse: " + st); return; }
         src_mem.arena.protect();
+        // the very same object as source and as base (a caller asking "relative to itself"): same answer as for two equal objects
+        if ((only_base == -1 || only_base == -2) && S.r.scheme.present) {
+            RoUri<C> Same = S; Same.text = "\x01same"; lc->pairs++; bool w1 = witness(S.r, S.r, false, 0), w2 = witness(S.r, S.r, true, 0);
+            for (int mode = 0; mode < 2; mode++) for (int mgr = 0; mgr < 2; mgr++) {
+                if ((only_mode >= 0 && mode != only_mode) || (only_mgr >= 0 && mgr != only_mgr)) continue; int sig;
+                if ((sig = GUARD_ENTER()) == 0) { one(S, Same, mode, mgr, true, w1, true, w2); GUARD_LEAVE(); }
+                else { ctx->violation("", enc(st, Same.text, mode, mgr), fmt("%s during reference creation with one object as source and base", signame(sig))); led.reset(); }
+            }
+        }
+        if (only_base == -2) return;
         for (size_t bi = 0; bi < bases.size(); bi++) {
             if (only_base >= 0 && (int)bi != only_base) continue;
             const RoUri<C> &B = bases[bi]; lc->pairs++; ctx->progress++;
@@ -148,6 +158,9 @@ static void sets(int n, std::vector<Str> &srcs, std::vector<Str> &bases) {
     for (auto seg : { "x_y:z", "%3A:b", "k=v:w", "a@b:c", "item-17", "item-18", "2023", "2024" }) for (auto pre : { "s://h/", "s://h/a/", "s://h/item-17/", "s:/a/", "s:/", "s:a/", "s:" }) {
         Str s1 = Str(pre) + seg; if (!ref::is_uri_reference(s1)) continue; if (seen_s.insert(s1).second) srcs.push_back(s1); Str s2 = s1 + "/x?q"; if (seen_s.insert(s2).second) srcs.push_back(s2);
         if (seen_b.insert(s1).second) bases.push_back(s1); }
+    // a dot segment as the LAST directory of the base (and nowhere before it), and sources that share the directories in front of it
+    for (auto bp : { "/a/./c", "/a/b/../c", "/a/b/./", "/a/../", "/./c", "/a/b/c/../d" }) for (auto pre : { "s://h", "s:" }) { Str t = Str(pre) + bp; if (seen_b.insert(t).second) bases.push_back(t); if (seen_s.insert(t).second) srcs.push_back(t); }
+    for (auto sp : { "/a/x", "/a/b/x", "/a/b/c/x", "/x" }) for (auto pre : { "s://h", "s:" }) { Str t = Str(pre) + sp; if (seen_s.insert(t).second) srcs.push_back(t); }
     // schemes that differ in case only, that extend one another, or that hold every kind of scheme character: "share the scheme" means the same text
     for (auto sc : { "S", "sx", "s+", "s1", "s.", "http", "HTTP", "Http", "httP" }) for (auto body : { "://h/a/b", ":/a/b", ":a/b", "://h/a/c?q", ":" }) {
         Str t = Str(sc) + body; if (!ref::is_uri_reference(t)) continue; if (seen_s.insert(t).second) srcs.push_back(t); if (seen_b.insert(t).second) bases.push_back(t); }
@@ -166,6 +179,7 @@ void run(Ctx &ctx) {
 }
 void replay(Ctx &ctx, const Str &enc) {
     std::vector<Str> p = split(enc, '`'); if (p.size() != 5) return; Local lc; std::vector<Str> b; b.push_back(p[1]);
+    if (p[1] == "\x01same") { b[0] = "s:"; if (p[4] == "A") { Runner<char> r(&ctx, &lc); r.setup(b); r.run_src(p[0], -2, atoi(p[2].c_str()), atoi(p[3].c_str())); } else { Runner<wchar_t> r(&ctx, &lc); r.setup(b); r.run_src(p[0], -2, atoi(p[2].c_str()), atoi(p[3].c_str())); } return; }
     if (p[4] == "A") { Runner<char> r(&ctx, &lc); r.setup(b); r.run_src(p[0], 0, atoi(p[2].c_str()), atoi(p[3].c_str())); }
     else { Runner<wchar_t> r(&ctx, &lc); r.setup(b); r.run_src(p[0], 0, atoi(p[2].c_str()), atoi(p[3].c_str())); }
 }
